@@ -34,6 +34,7 @@ type Engine struct {
 	escCache  map[*ssa.Alloc]bool
 	sizeCache map[*ssa.Function]int
 	fnByKey   map[string]*ssa.Function
+	byFn      map[*ssa.Function]*FuncContract
 	idCache   map[string]bool
 	unbound   []string
 }
@@ -119,6 +120,7 @@ func (e *Engine) indexFunctions() {
 		}
 		e.fnByKey[k] = fn
 	}
+	e.resolveAnchored()
 	for k, fc := range e.contracts.Funcs {
 		if _, ok := e.fnByKey[k]; ok {
 			fc.Bound = true
@@ -145,7 +147,68 @@ func (e *Engine) isInterfaceMethodKey(fc *FuncContract) bool {
 	return ok
 }
 
+// resolveAnchored binds contracts keyed "after:<file>:<anchor text>" to the
+// first function literal that starts after the anchor text in that file, so
+// that closures are addressed by what surrounds them and not by an ordinal.
+func (e *Engine) resolveAnchored() {
+	e.byFn = map[*ssa.Function]*FuncContract{}
+	for k, fc := range e.contracts.Funcs {
+		if !strings.HasPrefix(fc.Key, "after:") {
+			continue
+		}
+		rest := strings.TrimPrefix(fc.Key, "after:")
+		i := strings.Index(rest, ":")
+		if i < 0 {
+			continue
+		}
+		file, anchor := rest[:i], rest[i+1:]
+		var anchorPos token.Pos
+		for _, p := range e.pkgs {
+			if p.PkgPath != fc.Pkg {
+				continue
+			}
+			for j, f := range p.Syntax {
+				name := p.CompiledGoFiles[j]
+				if filepath.Base(name) != file {
+					continue
+				}
+				data, err := os.ReadFile(name)
+				if err != nil {
+					continue
+				}
+				off := strings.Index(string(data), anchor)
+				if off < 0 || strings.Index(string(data[off+1:]), anchor) >= 0 {
+					continue // missing or ambiguous anchor: stays unbound
+				}
+				anchorPos = e.prog.Fset.File(f.Pos()).Pos(off)
+			}
+		}
+		if !anchorPos.IsValid() {
+			continue
+		}
+		var best *ssa.Function
+		for _, fn := range e.fnByKey {
+			if fn.Parent() == nil || !fn.Pos().IsValid() || pkgOf(fn) == nil || pkgOf(fn).Path() != fc.Pkg {
+				continue
+			}
+			if e.prog.Fset.File(fn.Pos()) != e.prog.Fset.File(anchorPos) {
+				continue
+			}
+			if fn.Pos() > anchorPos && (best == nil || fn.Pos() < best.Pos()) {
+				best = fn
+			}
+		}
+		if best != nil {
+			e.fnByKey[k] = best
+			e.byFn[best] = fc
+		}
+	}
+}
+
 func (e *Engine) contractOf(fn *ssa.Function) *FuncContract {
+	if fc := e.byFn[fn]; fc != nil {
+		return fc
+	}
 	p := pkgOf(fn)
 	if p == nil {
 		return nil
@@ -342,6 +405,7 @@ type loop struct {
 	blocks      map[*ssa.BasicBlock]bool
 	ordinal     int
 	pos         token.Pos
+	endPos      token.Pos // end of the loop body (scope position for per-iteration postconditions)
 	modAllocs   []*ssa.Alloc
 	writesHeap  bool     // may write anything (call with unknown effects)
 	heapClasses []string // heap class prefixes written directly
@@ -439,8 +503,10 @@ func (e *Engine) loopsOf(fn *ssa.Function) *loopInfo {
 			switch s := srcLoops[best].(type) {
 			case *ast.ForStmt:
 				lp.pos = s.Body.Lbrace + 1
+				lp.endPos = s.Body.Rbrace
 			case *ast.RangeStmt:
 				lp.pos = s.Body.Lbrace + 1
+				lp.endPos = s.Body.Rbrace
 			}
 		}
 		// modified cells and heap writes
@@ -471,7 +537,7 @@ func (e *Engine) loopsOf(fn *ssa.Function) *loopInfo {
 					cc := i.Common()
 					argsMayBeWritten := true
 					if f := cc.StaticCallee(); f != nil {
-						if fc := e.contractOf(f); fc != nil && (fc.Pure || (fc.HasAssign && len(fc.Assigns) == 1 && fc.Assigns[0] == "nothing")) {
+						if fc := e.contractOf(f); fc != nil && (fc.Pure || frameIsClassOnly(fc)) {
 							argsMayBeWritten = false
 						}
 					}
@@ -748,4 +814,79 @@ func allocFor(fn *ssa.Function, obj types.Object) *ssa.Alloc {
 		}
 	}
 	return nil
+}
+
+// calleeOrdinal: 1-based position of call instruction `in` among the call
+// sites of fn (in source order) whose source-level callee name is `name`.
+func (e *Engine) calleeOrdinal(fn *ssa.Function, in ssa.Instruction, name string) int {
+	type item struct {
+		in  ssa.Instruction
+		pos token.Pos
+		seq int
+	}
+	var items []item
+	seq := 0
+	for _, b := range fn.Blocks {
+		for _, i := range b.Instrs {
+			if ci, ok := i.(ssa.CallInstruction); ok && calleeName(ci.Common()) == name {
+				items = append(items, item{i, i.Pos(), seq})
+			}
+			seq++
+		}
+	}
+	sort.SliceStable(items, func(a, b int) bool {
+		if items[a].pos != items[b].pos {
+			return items[a].pos < items[b].pos
+		}
+		return items[a].seq < items[b].seq
+	})
+	for i, it := range items {
+		if it.in == in {
+			return i + 1
+		}
+	}
+	return 0
+}
+
+// tinyLeaf: at most 14 instructions, a single block chain without loops, no calls.
+func (e *Engine) tinyLeaf(fn *ssa.Function) bool {
+	n := 0
+	for _, b := range fn.Blocks {
+		for _, in := range b.Instrs {
+			n++
+			switch c := in.(type) {
+			case *ssa.Call:
+				if bi, ok := c.Call.Value.(*ssa.Builtin); !ok || bi.Name() != "ssa:deferstack" {
+					return false
+				}
+			case *ssa.Go, *ssa.Defer, *ssa.Send, *ssa.Select, *ssa.MapUpdate:
+				return false
+			case *ssa.Store:
+				if rootAlloc(c.Addr) == nil {
+					return false
+				}
+			}
+		}
+		for _, s := range b.Succs {
+			if s.Dominates(b) {
+				return false
+			}
+		}
+	}
+	return n <= 24
+}
+
+// frameIsClassOnly: the contract's frame names only heap classes (or nothing):
+// locals passed by pointer are then not written by the callee.
+func frameIsClassOnly(fc *FuncContract) bool {
+	if !fc.HasAssign {
+		return false
+	}
+	for _, a := range fc.Assigns {
+		if a == "nothing" || a == "fresh" || strings.HasPrefix(a, "class:") {
+			continue
+		}
+		return false
+	}
+	return true
 }
